@@ -203,6 +203,12 @@ def main() -> int:
         rep.evaluations += 1
         if (twice / "src" / "main.cpp").read_text() != "// second\n":
             rep.violation("second write_project into the same directory left the previous src/main.cpp in place", key="stale-main")
+        # ... also when the new source happens to have exactly the size of the old one
+        for txt in ("// other\n", "// X\u00e9cond\n", "//  third\n"):
+            pio.write_project(twice, txt, "COM3", platform="atmelavr", board="uno", lib_deps=["Servo"])
+            rep.count("same_dir_rewrites")
+            if (twice / "src" / "main.cpp").read_text(encoding="utf-8") != txt:
+                rep.violation(f"write_project into an existing project directory did not replace src/main.cpp by the new source {txt!r}", key="stale-main")
         import configparser as _cp
         for libs2 in (["LiquidCrystal", "Servo"], [], ["LiquidCrystal_I2C"]):
             pio.write_project(twice, "// third\n", "COM3", platform="atmelavr", board="uno", lib_deps=libs2)
